@@ -376,8 +376,8 @@ pub fn check(tier: Tier) -> i32 {
     }
 
     // Tier C: random long strings and lists, with shrinking (in-process + bash).
-    drive(&ctx, "random", tier.pick(4000, 60000), || proptest::collection::vec(arg_strategy(40), 1..4), run_case);
-    drive(&ctx, "long", tier.pick(1000, 10000), || proptest::collection::vec(arg_strategy(300), 1..2), run_case);
+    drive(&ctx, "random", tier.pick(12000, 100000), || proptest::collection::vec(arg_strategy(40), 1..4), run_case);
+    drive(&ctx, "long", tier.pick(3000, 20000), || proptest::collection::vec(arg_strategy(300), 1..2), run_case);
 
     // Clause (5): split never panics on arbitrary text.
     let text = || proptest::collection::vec(
@@ -391,7 +391,7 @@ pub fn check(tier: Tier) -> i32 {
         0..30,
     )
     .prop_map(|v| v.concat());
-    drive(&ctx, "split-total", tier.pick(20000, 400000), text, |s: &String, _| {
+    drive(&ctx, "split-total", tier.pick(60000, 600000), text, |s: &String, _| {
         match catch_unwind(|| split(s)) {
             Ok(_) => Verdict::pass(s.contains("$'"), &["split-arbitrary-text"]),
             Err(_) => Verdict::fail("split-panics", format!("split({:?}) panicked", s)),
